@@ -35,14 +35,17 @@ type c19Params struct {
 	Request bool
 	Hang    bool // the backends accept probes and never answer them
 	Cleanup bool // the WebSocket pool's cleanup ticker fires as well
+	// NoActive: active health checks are off (no health-check loop to wait for); the pool must be
+	// shut down all the same
+	NoActive bool
 }
 
 func c19Scenario(p c19Params, bound int) vh.SScenario {
-	return vh.SScenario{Name: fmt.Sprintf("shutdown-ticks%d-stops%d-req%v-hang%v-cleanup%v", p.Ticks, p.Stops, p.Request, p.Hang, p.Cleanup), KeyPrefix: "C19", Bound: bound, Params: p,
+	return vh.SScenario{Name: fmt.Sprintf("shutdown-ticks%d-stops%d-req%v-hang%v-cleanup%v-noactive%v", p.Ticks, p.Stops, p.Request, p.Hang, p.Cleanup, p.NoActive), KeyPrefix: "C19", Bound: bound, Params: p,
 		ShardSubtrees: true, Horizon: 2000,
 		Body: func(x *vh.Exec) {
 			s := x.S
-			k := newKit(s, kitOpts{Strategy: "round_robin", N: 2, PassiveThr: 2, Window: 10, Active: true, WSPool: true})
+			k := newKit(s, kitOpts{Strategy: "round_robin", N: 2, PassiveThr: 2, Window: 10, Active: !p.NoActive, WSPool: true})
 			conns := []*fakeConn{{}, {}}
 			k.lb.wsPool.Put("b0", conns[0])
 			k.lb.wsPool.Put("b0", conns[1]) // one pool key: Shutdown ranges over a map, whose order would make replays diverge
@@ -141,9 +144,10 @@ func TestVerifC19(t *testing.T) {
 		p c19Params
 		b int
 	}
-	scs := []sc{{c19Params{1, 1, false, false, false}, 2}, {c19Params{2, 1, false, false, false}, 2}, {c19Params{1, 2, false, false, false}, 2}, {c19Params{1, 1, true, false, false}, 2}, {c19Params{0, 2, true, false, false}, 1}, {c19Params{1, 1, false, true, false}, 2}, {c19Params{1, 2, false, true, false}, 1}, {c19Params{0, 1, false, false, true}, 2}, {c19Params{1, 2, false, false, true}, 1}}
+	scs := []sc{{c19Params{1, 1, false, false, false, false}, 2}, {c19Params{2, 1, false, false, false, false}, 2}, {c19Params{1, 2, false, false, false, false}, 2}, {c19Params{1, 1, true, false, false, false}, 2}, {c19Params{0, 2, true, false, false, false}, 1}, {c19Params{1, 1, false, true, false, false}, 2}, {c19Params{1, 2, false, true, false, false}, 1}, {c19Params{0, 1, false, false, true, false}, 2}, {c19Params{1, 2, false, false, true, false}, 1}}
+	scs = append(scs, sc{c19Params{0, 1, false, false, false, true}, 2}, sc{c19Params{0, 2, true, false, true, true}, 1})
 	if vres.Thorough() {
-		scs = []sc{{c19Params{1, 1, false, false, false}, 3}, {c19Params{2, 1, false, false, false}, 2}, {c19Params{1, 2, false, false, false}, 2}, {c19Params{1, 1, true, false, false}, 2}, {c19Params{0, 2, true, false, false}, 2}, {c19Params{2, 2, true, false, false}, 1}, {c19Params{1, 1, false, true, false}, 3}, {c19Params{2, 2, false, true, false}, 2}, {c19Params{0, 1, false, false, true}, 3}, {c19Params{1, 2, true, false, true}, 2}}
+		scs = []sc{{c19Params{0, 1, false, false, false, true}, 3}, {c19Params{0, 2, true, false, true, true}, 2}, {c19Params{1, 1, false, false, false, false}, 3}, {c19Params{2, 1, false, false, false, false}, 2}, {c19Params{1, 2, false, false, false, false}, 2}, {c19Params{1, 1, true, false, false, false}, 2}, {c19Params{0, 2, true, false, false, false}, 2}, {c19Params{2, 2, true, false, false, false}, 1}, {c19Params{1, 1, false, true, false, false}, 3}, {c19Params{2, 2, false, true, false, false}, 2}, {c19Params{0, 1, false, false, true, false}, 3}, {c19Params{1, 2, true, false, true, false}, 2}}
 	}
 	for _, c := range scs {
 		vh.RunS(r, "TestVerifC19", c19Scenario(c.p, c.b))
